@@ -368,6 +368,7 @@ type c18SeqOp struct {
 type c18PoolSeqScn struct {
 	Limit  int        `json:"limit"`
 	MaxAge int64      `json:"maxage"`
+	Unit   int64      `json:"unit_ns"` // nanoseconds per time unit: 1e6 (ms) or 1 (maxAge of 1-3 ns: the smallest legal ages)
 	Ops    []c18SeqOp `json:"ops"`
 }
 
@@ -375,7 +376,10 @@ type c18PoolSeqScn struct {
 // has an idle resource or room to create (so that it cannot block); Put releases
 // the X-th held resource.
 func c18GenPoolSeq(r interface{ Intn(int) int }) c18PoolSeqScn {
-	sc := c18PoolSeqScn{Limit: 1 + r.Intn(4), MaxAge: int64(2 + r.Intn(30))}
+	sc := c18PoolSeqScn{Limit: 1 + r.Intn(4), MaxAge: int64(2 + r.Intn(30)), Unit: c18Ms}
+	if r.Intn(4) == 0 {
+		sc.Unit, sc.MaxAge = 1, int64(1+r.Intn(3))
+	}
 	n := 10 + r.Intn(40)
 	held, idle := 0, 0 // upper bound bookkeeping: held+idle <= limit always allows Get iff idle>0 || held+idle<limit
 	for i := 0; i < n; i++ {
@@ -418,7 +422,7 @@ func c18RunPoolSeq(m *vk.M, idx int, sc c18PoolSeqScn) bool {
 		if r, ok := x.(*c18PRes); ok {
 			destroyed = append(destroyed, r.id)
 		}
-	}, WithMaxAge(time.Duration(sc.MaxAge*c18Ms)))
+	}, WithMaxAge(time.Duration(sc.MaxAge*sc.Unit)))
 
 	now := int64(0)
 	idle := map[int]int64{} // id -> virtual time of Put
@@ -429,7 +433,7 @@ func c18RunPoolSeq(m *vk.M, idx int, sc c18PoolSeqScn) bool {
 	for step, op := range sc.Ops {
 		switch op.Op {
 		case c18PAdvance:
-			timex.VerifAdvance(time.Duration(op.X * c18Ms))
+			timex.VerifAdvance(time.Duration(op.X * sc.Unit))
 			now += op.X
 		case c18PPut:
 			r := held[int(op.X)%len(held)]
@@ -482,7 +486,7 @@ func c18RunPoolSeq(m *vk.M, idx int, sc c18PoolSeqScn) bool {
 			if t, ok := idle[r.id]; ok {
 				nreuse++
 				if t+sc.MaxAge < now {
-					m.Violate("C18:pool:expired-reused", desc, "step %d: Get returned resource #%d which had been idle for %dms > maxAge %dms (virtual clock); it must be destroyed, not reused", step, r.id, now-t, sc.MaxAge)
+					m.Violate("C18:pool:expired-reused", desc, "step %d: Get returned resource #%d which had been idle for %d > maxAge %d time units of %dns (virtual clock); it must be destroyed, not reused", step, r.id, now-t, sc.MaxAge, sc.Unit)
 					return true
 				}
 				delete(idle, r.id)
@@ -505,7 +509,7 @@ func c18RunPoolSeq(m *vk.M, idx int, sc c18PoolSeqScn) bool {
 	m.Count("poolseq_idle_beyond_maxage_at_get", int64(nexpiredSeen))
 	m.Case(fmt.Sprintf("poolseq%d/%d/%d/%d/%s", sc.Limit, nget, nreuse, ndestroy, vk.Digest(vk.JSON(sc.Ops))), ndestroy > 0)
 	if ndestroy > 0 && m.WantSample() && idx%23 == 1 {
-		m.Sample(map[string]any{"kind": "pool-sequential-maxage", "limit": sc.Limit, "maxage_ms": sc.MaxAge, "ops": len(sc.Ops), "gets": nget,
+		m.Sample(map[string]any{"kind": "pool-sequential-maxage", "limit": sc.Limit, "maxage": sc.MaxAge, "unit_ns": sc.Unit, "ops": len(sc.Ops), "gets": nget,
 			"reuses_within_maxage": nreuse, "destroyed_beyond_maxage": ndestroy})
 	}
 	return true
